@@ -256,7 +256,7 @@ def gen_window(ctx):
     if route == 'bitarray=':
         total = rng.choice([0, 1, 7, 8, 13, 40])
         src = rb(rng, total)
-    off = rng.choice([None, 0, 1, 7, 8, total - 1, total, total + 1, total + 8, -1, -8, 10 ** 6])
+    off = rng.choice([None, 0, 1, 7, 8, total - 1, total, total + 1, total + 8, -1, -8, 10 ** 6, 32768, 65536, 32768 + 8, 8 * 4096 * 16, 32760])
     ln = rng.choice([None, 0, 1, 8, total, total - 1, total + 1, -1, -8, 10 ** 6])
     return {'kind': 'window', 'route': route, 'src': src, 'offset': off, 'length': ln, 'cls': rng.choice(util.CLASS_NAMES)}
 
@@ -396,6 +396,8 @@ def gen_array_multi(ctx):
     k = {'setslice': 3, 'setslice-ext': (len(base) + 1) // 2, 'setslice-resize': rng.choice([1, 2, 5])}.get(op, rng.choice([1, 2, 3, 5]))
     if op in ('insert', 'append', 'setitem'):
         k = 1
+    if op in ('extend', 'extend-gen', 'init', 'setslice-resize') and rng.random() < 0.04:
+        k = rng.choice([1025, 1030, 2049, 256, 257, 4097])           # more items than a block-wise implementation would commit at once
     vals = [good() for _ in range(k)]
     badpos = rng.choice([None, None, 0, k - 1, k // 2, rng.randrange(k)])
     if badpos is not None:
